@@ -4,6 +4,7 @@ package main
 // small set of intrinsics (sync, channels).
 
 import (
+	"os"
 	"fmt"
 	"go/types"
 	"strings"
@@ -41,6 +42,20 @@ func (x *Exec) call(st *State, fr *Frame, site ssa.Instruction, c *ssa.CallCommo
 	if fn, ok := fv.Fn.(*ssa.Function); ok {
 		x.callFunc(st, fr, site, fn, fv.Bindings, args, where, k)
 		return
+	}
+	if len(fv.L) == 1 && fv.L[0].IsConst() {
+		// a function value whose identity is a known constant (stored in and reloaded from memory)
+		if fn := x.E.funcByRef(fv.L[0]); fn != nil && len(fn.FreeVars) == 0 {
+			x.callFunc(st, fr, site, fn, nil, args, where, k)
+			return
+		}
+	}
+	if x.dry {
+		// effect computation: a local variable that only ever holds one closure
+		if fn := singleClosureOf(c.Value); fn != nil && x.E.contractFor(fn) != nil {
+			x.callFunc(st, fr, site, fn, nil, args, where, k)
+			return
+		}
 	}
 	// a function stored in a struct field may have a contract of its own:
 	// "func field T.f" (assumed for every function ever stored there)
@@ -176,7 +191,13 @@ func (x *Exec) tupleOf(res *types.Tuple, vals []Val) Val {
 
 func (x *Exec) unknownCall(st *State, fr *Frame, what string, sig *types.Signature, where string, k func(*State, Val)) {
 	x.E.noteUnmodelled(what + " @ " + where)
+	if os.Getenv("GOVC_DEBUG_DRY") != "" {
+		fmt.Fprintf(os.Stderr, "[unknown] dry=%v %s @ %s\n", x.dry, what, where)
+	}
 	if x.dry {
+		if os.Getenv("GOVC_DEBUG_DRY") != "" {
+			fmt.Fprintf(os.Stderr, "[dry-all] unknown call %s @ %s\n", what, where)
+		}
 		x.dryEff.all = true
 	}
 	// havoc the whole heap: nothing is known afterwards
@@ -189,6 +210,9 @@ func (x *Exec) unknownCall(st *State, fr *Frame, what string, sig *types.Signatu
 	for key := range st.ghost {
 		if strings.HasPrefix(key, "held!") || strings.HasPrefix(key, "dec!") {
 			continue
+		}
+		if _, declared := x.E.ghostDecls[strings.TrimPrefix(key, "ghost!")]; declared && strings.HasPrefix(key, "ghost!") {
+			continue // specification variables change only by `set` and `modifies`
 		}
 		delete(st.ghost, key)
 	}
@@ -954,4 +978,33 @@ func (x *Exec) frameCheckElemCond(st *State, top *Frame, elemKey string, ref, lo
 		alts = append(alts, And(Eq(ref, sv.L[0]), Le(sv.L[1], lo), Lt(hi, Add(sv.L[1], sv.L[2]))))
 	}
 	x.oblige(st, "frame", "modifies", Implies(cond, Or(alts...)), "element write is covered by the modifies clause", where)
+}
+
+// singleClosureOf: v is a load of a local variable whose only store is one closure.
+func singleClosureOf(v ssa.Value) *ssa.Function {
+	u, ok := v.(*ssa.UnOp)
+	if !ok {
+		return nil
+	}
+	al, ok := u.X.(*ssa.Alloc)
+	if !ok || al.Referrers() == nil {
+		return nil
+	}
+	var fn *ssa.Function
+	for _, r := range *al.Referrers() {
+		if s, ok := r.(*ssa.Store); ok && s.Addr == al {
+			if fn != nil {
+				return nil
+			}
+			switch v := s.Val.(type) {
+			case *ssa.MakeClosure:
+				fn, _ = v.Fn.(*ssa.Function)
+			case *ssa.Function:
+				fn = v
+			default:
+				return nil
+			}
+		}
+	}
+	return fn
 }
